@@ -209,6 +209,10 @@ class Credits(Mode):
         """Enable credits play."""
         del kwargs
 
+        # a machine which booted in free play has not calculated these yet
+        self._calculate_credit_units()
+        self._calculate_pricing_tiers()
+
         credit_units = self._get_credit_units()
 
         if self.credits_config['persist_credits_while_off_time']:
